@@ -144,6 +144,23 @@ fn scenario(name: &str, n: usize) -> serde_json::Value {
                 let _ = set.select().unwrap();
             }
         },
+        "send_closed_big_att" => {
+            // the same with a payload that needs several packets: the first fragment is refused, everything the message embedded is released
+            for i in 0..n {
+                let (tx, rx) = ipc::channel::<(Vec<u8>, Vec<IpcSender<u32>>, ipc::IpcReceiver<u32>, IpcSharedMemory)>().unwrap();
+                drop(rx);
+                let (a, _ar) = ipc::channel::<u32>().unwrap();
+                let (b, br) = ipc::channel::<u32>().unwrap();
+                let r = tx.send((payload(i as u64, 600_000), vec![a.clone(), a], br, IpcSharedMemory::from_bytes(b"xyz")));
+                if r.is_ok() {
+                    notes.push("send to a closed receiver succeeded".into());
+                }
+                // the embedded receiver was moved into the message and the message is gone: its channel must be closed now
+                if b.send(1).is_ok() {
+                    notes.push("the receiver embedded in a refused multi-packet message is still open".into());
+                }
+            }
+        },
         "send_closed_att" => {
             for _ in 0..n {
                 let (tx, rx) = ipc::channel::<(Vec<IpcSender<u32>>, ipc::IpcReceiver<u32>, IpcSharedMemory)>().unwrap();
